@@ -72,11 +72,16 @@ void remove_duplicate_include()
                   Chunk::Delete(temp);
                   Chunk::Delete(next);
 
-                  if (comment != eol)
+                  if (  comment != eol
+                     && comment->IsNotNullChunk())
                   {
                      Chunk::Delete(comment);
                   }
-                  Chunk::Delete(eol);
+
+                  if (eol->IsNotNullChunk())                 // the last line of the file may have no newline
+                  {
+                     Chunk::Delete(eol);
+                  }
                   break;
                }
                else
